@@ -129,8 +129,18 @@ class Canary(object):
   log = []
 
 
+class CanaryModule(types.ModuleType):
+  """Any look-up of a public name in this module while a payload is being handled is recorded: nothing the default
+  unpickler or its callers do with a refused payload has any business here (not even formatting a log line)."""
+
+  def __getattribute__(self, name):
+    if Watch.armed and not name.startswith('__'):
+      Canary.log.append(('looked-up', name))
+    return types.ModuleType.__getattribute__(self, name)
+
+
 def make_canary_module():
-  m = types.ModuleType('verif_canary')
+  m = CanaryModule('verif_canary')
 
   def boom(*a, **k):
     Canary.log.append(('called', 'boom'))
@@ -183,6 +193,10 @@ def audit(event, args):
     return
   if event == 'import':
     Watch.events.append(('import', args[0]))
+  elif event == 'object.__getattr__' and len(args) > 1 and args[1] in ('__globals__', '__builtins__', '__closure__', '__code__'):
+    # reading a function's globals / code while a payload is handled: the way out of any sandbox (format-string fields,
+    # getattr chains) - nothing on the listener's path does that
+    Watch.events.append(('introspection', '%s of %.80r' % (args[1], args[0])))
   elif event in ('pickle.find_class', 'os.system', 'subprocess.Popen', 'os.exec', 'os.posix_spawn', 'os.fork', 'exec', 'compile'):
     Watch.events.append((event, repr(args)[:200]))
 
@@ -416,8 +430,23 @@ def run_config(cfg, res):
              ('carbon.util', 'SafeUnpickler'), ('carbon.util', 'pickle'), ('pickle', 'loads'), ('_pickle', 'loads'),
              ('verif_canary', 'boom'), ('Verif_Canary', 'boom'), ('verif_canary ', 'boom'), ('', 'boom'),
              ('verif_canary', ''), ('verif_canary.sub', 'boom'), ('os.path', 'join'), ('json.decoder', 'JSONDecoder')]
+  # names that are templates for one of python's formatting mini-languages: whoever reports the refusal (exception text,
+  # log line) must treat them as text
+  for root in ('0', '', 'self', '1', 'exc'):
+    for via in ('connectionMade', 'stringReceived', 'find_class', 'loads'):
+      fld = '{%s.%s.__globals__[sys].modules[verif_canary].boom}' % (root, via)
+      targets += [(fld, 'x'), ('verif_canary', fld)]
+  targets += [('%(verif_canary)s %s %d %n', 'boom'), ('verif_canary', '%s%s%s%(x)d'), ('{0!r:>{1}}', '{}{}{}'), ('{', '}'), ('$verif_canary ${x}', '%')]
   for _ in range(60 if cfg['tier'] == 'quick' else 1500):
     targets.append((gen.metric_name(r, nonascii=False, maxseg=2), gen.metric_name(r, nonascii=False, maxseg=1)))
+  # sender text echoed by an error that involves no global at all: number literals, persistent ids, unknown opcodes
+  for root in ('0', '', 'self'):
+    for via in ('connectionMade', 'stringReceived'):
+      fld = ('{%s.%s.__globals__[sys].modules[verif_canary].boom}' % (root, via)).encode()
+      for k, lit in enumerate((b'L' + fld + b'\n.', b'I' + fld + b'\n.', b'F' + fld + b'\n.', b'P' + fld + b'\n.', b'(I1\nL' + fld + b'L\nt.',
+                               b']' + b'S\'' + fld + b'\n.', fld, b'\x80\x02]q\x00(X\x01\x00\x00\x00aL' + fld + b'\ne.')):
+        feed(lit, [('verif_canary', 'boom')], 'literal%d/format-field' % k)
+        res.count('format_field_literals_fed')
   for mod, name in targets:
     for label, ops in routes_for(mod, name):
       feed(wrap(ops, 0, 'value'), [(mod, name)], 'route/' + label)
